@@ -1,5 +1,5 @@
 from shexer.io.graph.yielder.base_triples_yielder import BaseTriplesYielder
-from shexer.utils.uri import remove_corners, unprefixize_uri_mandatory
+from shexer.utils.uri import remove_corners, unprefixize_uri_mandatory, starts_with_scheme
 from shexer.utils.triple_yielders import tune_subj, tune_prop, tune_token
 import re
 
@@ -367,7 +367,7 @@ class BigTtlTriplesYielder(BaseTriplesYielder):
             return cornered_element  # There is no base
         elif cornered_element[1] in _INI_BASE_URIS:
             return "<" + self._base + cornered_element[2:-1] + ">"
-        elif not cornered_element[1:].startswith("http"):
+        elif not starts_with_scheme(cornered_element[1:]):
             return "<" + self._base + cornered_element[1:-1] + ">"
         else:
             return cornered_element  # Nothing to do with base
